@@ -87,6 +87,13 @@ func workerMain() {
 				}
 				if err != nil {
 					status = "err"
+					// a caller may well call Read again after an error (retry loops, io.Copy wrappers): these
+					// calls too must come back with data, an error or end of stream - never crash or hang
+					for i := 0; i < 3; i++ {
+						if _, e2 := rd.Read(buf); e2 == io.EOF {
+							break
+						}
+					}
 					break
 				}
 				if k == 0 {
